@@ -288,6 +288,36 @@ impl C16 {
                 };
                 let mut src = String::from("make c get command(\"simchild\")\n");
                 let shape = c["script_shape"].as_u64().unwrap_or(0);
+                if shape == 6 || shape == 7 {
+                    // 6: the builder is a parameter of a recursive function and is configured and run in the
+                    //    innermost activation. 7: the builder lives in an array slot and is configured by a
+                    //    helper that a function with a local of the same name calls
+                    let recv = if shape == 6 { "k" } else { "jobs[0]" };
+                    let mut cfg_lines = format!("    {recv}.stdout_{}()\n    {recv}.stderr_{}()\n", polname(c["out_pol"].as_u64().unwrap()), polname(c["err_pol"].as_u64().unwrap()));
+                    cfg_lines += &match c["stdin_pol"].as_u64().unwrap() {
+                        0 => format!("    {recv}.stdin_inherit()\n"),
+                        1 => format!("    {recv}.stdin_null()\n"),
+                        _ => format!("    {recv}.stdin_text(\"{stdin_text}\")\n"),
+                    };
+                    if !use_default {
+                        cfg_lines += &format!("    {recv}.timeout_ms({timeout})\n");
+                    }
+                    if shape == 6 {
+                        src += &format!(
+                            "do deep(k, n) start\n    if to say (n pass 0) start\n        return deep(k, n minus 1)\n    end\n{cfg_lines}    return k.run()\nend\nmake r get deep(c, 2)\n"
+                        );
+                    } else {
+                        src += &format!(
+                            "make jobs get [c]\ndo configure() start\n{cfg_lines}    return 1\nend\ndo caller() start\n    make jobs get [command(\"other\")]\n    make u get configure()\n    return jobs.len()\nend\nmake w get caller()\nmake r get jobs[0].run()\n"
+                        );
+                    }
+                    src += "shout(r.success())\nshout(r.exit_code())\nshout(r.stdout())\nshout(r.stderr())\n";
+                    let policy = HostPolicy { allow_process: true, process: caps };
+                    let seen = seen_from_script(&pipeline::run_library(&src, true, Some(policy)));
+                    let obs = hostsim::observe();
+                    *sh.lock().unwrap() = (Some(seen), obs);
+                    return;
+                }
                 // shape 3: the whole configuration happens inside a helper that works on the captured
                 // builder and whose return value nobody reads
                 let ind = if shape == 3 {
@@ -622,7 +652,7 @@ fn gen_scenario(r: &mut Rng, tier: Tier) -> Value {
         "pipe_cap": pipe_cap, "epipe_die": r.chance(50), "stdin_len": stdin_len, "script": script,
         "faults": faults, "jitter_seed": r.next() >> 1,
         "mode": if r.below(8) == 0 { "direct" } else { "script" },
-        "script_shape": r.pick(&[0u64, 0, 1, 2, 3, 4, 5]),
+        "script_shape": r.pick(&[0u64, 0, 1, 2, 3, 4, 5, 6, 7]),
         "default_timeout": r.chance(15),
     })
 }
